@@ -28,13 +28,13 @@ func init() {
 // ---------------------------------------------------------------- C10
 
 type tsyncScript struct {
-	Phases     []string `json:"phases"` // spin | sleep | read | futex | spawn
-	Flags      uint32   `json:"flags"`
-	LoaderMain bool     `json:"loader_main"`
-	NNP        bool     `json:"nnp"`
-	Preload    bool     `json:"preload"` // the loader first loads the same policy without thread-sync
-	Divergent  bool     `json:"divergent"` // the first phase thread installs a private filter (policy B) before the load
-	OuterENOSYS bool    `json:"outer_enosys"` // the whole process already runs under a filter that answers ENOSYS to seccomp(2) (as if the kernel lacked it)
+	Phases      []string `json:"phases"` // spin | sleep | read | futex | spawn
+	Flags       uint32   `json:"flags"`
+	LoaderMain  bool     `json:"loader_main"`
+	NNP         bool     `json:"nnp"`
+	Preload     bool     `json:"preload"`      // the loader first loads the same policy without thread-sync
+	Divergent   bool     `json:"divergent"`    // the first phase thread installs a private filter (policy B) before the load
+	OuterENOSYS bool     `json:"outer_enosys"` // the whole process already runs under a filter that answers ENOSYS to seccomp(2) (as if the kernel lacked it)
 }
 
 type tsyncThread struct {
@@ -270,7 +270,7 @@ func childTSync(args []string) {
 type nnpScript struct {
 	NNP        bool   `json:"nnp"`
 	Flags      uint32 `json:"flags"`
-	Choice     string `json:"choice"` // stay | move
+	Choice     string `json:"choice"`  // stay | move
 	IdleMs     int    `json:"idle_ms"` // number of idle runtime threads to create before the load (move-old) or 0
 	LoaderMain bool   `json:"loader_main"`
 	WireIdle   int    `json:"wire_idle"` // wire this many goroutines to threads first, so that no idle thread is left (move-new)
